@@ -28,6 +28,9 @@ var extraFiles = []string{
 	"bep44/memory.go",
 	"exts/getput/getput.go",
 	"k-nearest-nodes/k-nearest-nodes.go.go",
+	"transactions/key-issuer.go",
+	"transactions/dispatcher.go",
+	"tokens.go",
 }
 
 var skipRoot = map[string]bool{
